@@ -490,6 +490,28 @@ func c17r4(c *core.Ctx) {
 	if bad == 0 {
 		c.Check(n > 0, "list-element-instance@"+fname(dec), dec.Pos(), "each list element is decoded into an instance created inside the element loop", "no reflect.Append inside a loop found in decode")
 	}
+	// "the decoded element is empty" is the end marker of an inline ('-') list only: an element of a tagged list has its own item on
+	// the wire and is appended whatever it holds (an element whose fields are all zero is still an element)
+	inline := core.CmpFact(func(x, y ssa.Value) (bool, bool) {
+		if s, ok := core.ConstString(y); ok && s == "-" {
+			return true, false
+		}
+		if s, ok := core.ConstString(x); ok && s == "-" {
+			return true, false
+		}
+		return false, false
+	})
+	core.Instrs(dec, func(i ssa.Instruction) {
+		g := core.Callee(i)
+		if g == nil || !(cn(g) == "isEmptyStruct" || cn(g) == "isEmptyValue" || core.QualName(g) == "(reflect.Value).IsZero") {
+			return
+		}
+		if !reachesAfter(i, i) {
+			return // not in the element loop
+		}
+		c.Check(core.Dominated(i, inline), "empty-element-is-inline-end-marker@"+fname(dec), posOf(i), "the emptiness test of a decoded element is made for inline lists only",
+			"an element of a tagged list is tested for emptiness: an element whose fields all hold zero is dropped (or ends the list) although it is on the wire")
+	})
 }
 
 func newInstanceCalls(v ssa.Value) []*ssa.Call {
